@@ -67,9 +67,11 @@ type vfServerStream struct {
 	returned  bool // handler returned
 	retErr    error
 	onSend    func(*adminservice.StreamWorkflowReplicationMessagesResponse) error
-	sendGate  chan error // non-nil: Send parks until the environment accepts or fails it
-	inSend    int
-	brk       chan struct{}
+	// onEnterSend sees a message when the proxy calls Send, before the (possibly slow) write
+	onEnterSend func(*adminservice.StreamWorkflowReplicationMessagesResponse)
+	sendGate    chan error // non-nil: Send parks until the environment accepts or fails it
+	inSend      int
+	brk         chan struct{}
 }
 
 func (s *vfServerStream) breakNow() {
@@ -115,12 +117,18 @@ func (s *vfServerStream) Send(m *adminservice.StreamWorkflowReplicationMessagesR
 	if s.broken || s.ctx.Err() != nil {
 		return errVfBroken
 	}
+	if s.onEnterSend != nil {
+		s.onEnterSend(m)
+	}
 	if g := s.sendGate; g != nil {
 		s.inSend++
 		err := <-g
 		s.inSend--
 		if err != nil {
 			return err
+		}
+		if s.broken || s.ctx.Err() != nil {
+			return errVfBroken // the stream ended while the message was waiting to be written
 		}
 	}
 	if s.onSend != nil {
@@ -393,8 +401,9 @@ type vfRouteExec struct {
 	faults       int
 	panics       []string
 	closing      bool
-	wmSent       map[[2]int64]bool // (source shard, high watermark) of every watermark-only batch a source has sent
-	peersUp      bool              // LatePeers scenarios: the intra-proxy streams may be established
+	entered      map[string][][2]int // task tag -> (target, stream incarnation) whose Send the proxy has called with it
+	wmSent       map[[2]int64]bool   // (source shard, high watermark) of every watermark-only batch a source has sent
+	peersUp      bool                // LatePeers scenarios: the intra-proxy streams may be established
 	// spawn starts a handler goroutine (plain go at the macro level, a managed goroutine at the micro level)
 	spawn func(name string, f func())
 	// changed is closed (and replaced) on every environment-visible event, for goroutines waiting on a condition
@@ -1042,7 +1051,19 @@ func (e *vfRouteExec) onSourceAck(s *vfSrc, inc int, a int64) {
 				}
 			}
 		}
+		enteredDead := -1
 		if len(ds) == 0 {
+			// the proxy had called Send with the task on a stream that then ended before the write completed: it was in
+			// flight on that (dead) stream
+			for _, en := range e.entered[r.Tag] {
+				ts := e.tgt[en[0]-1].incoming[en[1]]
+				if ts.broken || ts.returned {
+					kind = "unconfirmed-task-on-dead-target-stream"
+					enteredDead = en[1]
+				}
+			}
+		}
+		if len(ds) == 0 && enteredDead < 0 {
 			for _, ts := range e.tgt[r.Tgt-1].incoming {
 				if ts.broken && e.strandedInEndedHandoff(r.Tag) {
 					// the owner's stream ended at some point and the task sits in the hand-off queue of its ended sender:
@@ -1073,6 +1094,8 @@ func (e *vfRouteExec) onSourceAck(s *vfSrc, inc int, a int64) {
 			}
 			if len(ds) > 0 {
 				firstEnded = ds[len(ds)-1].Inc
+			} else if enteredDead >= 0 {
+				firstEnded = enteredDead
 			}
 			sub := "owner-shard-has-not-acknowledged-since"
 			for i, ts := range e.tgt[r.Tgt-1].incoming {
@@ -1301,6 +1324,17 @@ func (e *vfRouteExec) openTarget(t *vfTgt) {
 	ss.onSend = func(m *adminservice.StreamWorkflowReplicationMessagesResponse) error {
 		e.onTargetSend(t, inc, m)
 		return nil
+	}
+	ss.onEnterSend = func(m *adminservice.StreamWorkflowReplicationMessagesResponse) {
+		e.cbmu.Lock()
+		defer e.cbmu.Unlock()
+		if e.entered == nil {
+			e.entered = map[string][][2]int{}
+		}
+		for _, task := range m.GetMessages().GetReplicationTasks() {
+			tag := task.GetRawTaskInfo().GetRunId()
+			e.entered[tag] = append(e.entered[tag], [2]int{t.idx, inc})
+		}
 	}
 	for _, g := range e.sc.Gated {
 		if g == t.idx && !e.closing {
